@@ -49,6 +49,24 @@ def exact_crossings(P, a):
     return ys
 
 
+def exact_crossings_fast(P, a):
+    """exact_crossings for polygons with hundreds of vertices: the edges that straddle x = a are found in floating
+    point (the sign of a float difference is exact), only those are evaluated with Fractions"""
+    A = np.asarray(P, dtype=float)
+    x0, x1 = A[:, 0], np.roll(A[:, 0], -1)
+    if np.any(x0 == a):
+        return None
+    idx = np.nonzero((x0 - a) * (x1 - a) < 0)[0]
+    n = len(A)
+    af = Fr(a)
+    ys = []
+    for i in idx.tolist():
+        fx0, fy0 = Fr(float(A[i, 0])), Fr(float(A[i, 1]))
+        fx1, fy1 = Fr(float(A[(i + 1) % n, 0])), Fr(float(A[(i + 1) % n, 1]))
+        ys.append(fy0 + (af - fx0) * (fy1 - fy0) / (fx1 - fx0))
+    return ys
+
+
 def make_polygon(case):
     rng = np.random.default_rng(case["seed"])
     m = case["m"]
@@ -106,6 +124,22 @@ def check_design(case, ctx):
     elif sk == "int":
         steps_arg = int(case["n_steps"])
         num = steps_arg
+    elif sk == "edges":
+        # abscissae inside chosen edges of the polygon (every edge must be found, also edge 255 -> 256 of a long contour)
+        n_v = len(P)
+        rng_e = np.random.default_rng(case["seed"] + 17)
+        pick = set(rng_e.integers(0, n_v, size=min(n_v, 40)).tolist())
+        for k in range(64, n_v + 1, 64):  # block boundaries of any power-of-two chunking
+            pick.update({(k - 2) % n_v, (k - 1) % n_v, k % n_v})
+        steps_arg = []
+        for i in sorted(pick):
+            xa, xb = P[i][0], P[(i + 1) % n_v][0]
+            if xa != xb:
+                f = 0.25 + 0.5 * rng_e.uniform()
+                steps_arg.append(float(xa + f * (xb - xa)))
+        if not steps_arg:
+            return
+        ctx.cls("vertices>256" if n_v > 256 else "vertices<=256")
     else:
         lo, hi = xs.min(), xs.max()
         steps_arg = [float(lo + f * (hi - lo)) for f in case["fracs"]]
@@ -131,7 +165,7 @@ def check_design(case, ctx):
     many = False
     skipped = False
     for a in expected_steps:
-        cr = exact_crossings(P, float(a))
+        cr = exact_crossings_fast(P, float(a))
         if cr is None:
             skipped = True
             exp_rows.append(None)
@@ -206,6 +240,26 @@ def strat_design(draw, tier):
     return case
 
 
+@st.composite
+def strat_design_large(draw, tier):
+    """long contours (hundreds of vertices, as IFORMContour(n_points=720) gives) probed inside individual edges"""
+    contour = draw(st.sampled_from(["polygon", "polygon", "IFORM"]))
+    case = dict(contour=contour, swap_axis=draw(st.booleans()), seed=draw(st.integers(0, 2**31 - 1)), steps_kind="edges")
+    if contour == "polygon":
+        case["m"] = draw(st.one_of(st.integers(100, 1500), st.sampled_from([255, 256, 257, 258, 511, 512, 513, 720, 1024, 1025])))
+        case["noise"] = draw(st.sampled_from([0.0, 0.0, 0.2]))
+        sign = draw(st.sampled_from(["pos", "pos", "neg", "mixed"]))
+        sx, sy = draw(st.floats(0.5, 20)), draw(st.floats(0.5, 20))
+        cy = {"pos": 2.0 * sy + 1, "neg": -2.0 * sy - 1, "mixed": 0.3 * sy}[sign]
+        case["centre"] = [draw(st.floats(-5, 30)), float(cy)]
+        case["scale"] = [sx, sy]
+    else:
+        case["model"] = draw(models.model_spec(n_dims=(2,), allow_scipy=False, leaf_families=["Weibull", "LogNormal", "ExponentiatedWeibull", "GeneralizedGamma"]))
+        case["alpha"] = float(10.0 ** draw(st.floats(-4, -1)))
+        case["n_points"] = draw(st.sampled_from([257, 360, 500, 513, 720, 1000]))
+    return case
+
+
 # -------------------------------------------------------------------- part intersection
 def seg_intersection(p0, p1, q0, q1):
     """exact intersection point of two closed segments in general position, or None"""
@@ -242,8 +296,13 @@ def check_intersection(case, ctx):
     ctx.cls(f"{case['kind_a']}x{case['kind_b']}")
     exp = []
     degenerate = False
-    for i in range(len(A) - 1):
-        for j in range(len(B) - 1):
+    # candidate pairs: bounding boxes overlap (float comparisons are exact); only those go through Fractions
+    a_lo, a_hi = np.minimum(A[:-1], A[1:]), np.maximum(A[:-1], A[1:])
+    b_lo, b_hi = np.minimum(B[:-1], B[1:]), np.maximum(B[:-1], B[1:])
+    cand = np.all(a_lo[:, None, :] <= b_hi[None, :, :], axis=2) & np.all(b_lo[None, :, :] <= a_hi[:, None, :], axis=2)
+    ctx.cls("segments>256" if max(len(A), len(B)) - 1 > 256 else "segments<=256")
+    for i, j in zip(*np.nonzero(cand)):
+        if True:
             r = seg_intersection(A[i], A[i + 1], B[j], B[j + 1])
             if r is not None:
                 if r[2] in (0, 1) or r[3] in (0, 1):
@@ -287,7 +346,19 @@ def strat_intersection(tier):
     )
 
 
+def strat_intersection_large(tier):
+    return st.builds(
+        lambda sa, sb, ma, mb, ka, kb, sh, flip: dict(seed_a=sa, seed_b=sb, m_a=mb if flip else ma, m_b=ma if flip else mb, kind_a=kb if flip else ka, kind_b=ka if flip else kb, shift=sh),
+        st.integers(0, 2**31 - 1), st.integers(0, 2**31 - 1),
+        st.one_of(st.integers(200, 1500), st.sampled_from([255, 256, 257, 511, 512, 513, 1024, 1025])), st.integers(2, 40),
+        st.sampled_from(["graph", "loop"]), st.sampled_from(["walk", "graph", "loop"]),
+        st.lists(st.floats(-2, 2).map(lambda v: round(v, 3)), min_size=2, max_size=2), st.booleans(),
+    )
+
+
 PARTS = [
     Part("design", check_design, lambda tier: strat_design(tier), quick=2000, thorough=50000, min_nontrivial_frac=0.2),
     Part("intersection", check_intersection, strat_intersection, quick=1500, thorough=30000, min_nontrivial_frac=0.25),
+    Part("design_large", check_design, lambda tier: strat_design_large(tier), quick=640, thorough=12000, shrink_quick=False),
+    Part("intersection_large", check_intersection, strat_intersection_large, quick=640, thorough=12000, shrink_quick=False),
 ]
